@@ -251,8 +251,6 @@ Proof.
 Qed.
 
 (* ---------- feature_singles ---------- *)
-Definition pre (lbl : name) (T : list triplet) : list (name * Q) := sort_desc (medians lbl T).
-
 Lemma singles_def heur lbl T : singles heur lbl T = if has_MI heur then normalise (pre lbl T) else pre lbl T.
 Proof. reflexivity. Qed.
 
@@ -390,10 +388,10 @@ Qed.
 
 (* ---------- the aggregated table ---------- *)
 Lemma feature_store_in final c s :
-  In (c, s) (feature_store final) <-> exists f, In (f, s) final /\ contains AND_ f = true /\ In c (constituents f).
+  In (c, s) (feature_store final) <-> exists f, In (f, s) final /\ contains SEP_ f = true /\ In c (constituents f).
 Proof.
   unfold feature_store. rewrite in_flat_map. split.
-  - intros [[f s'] [Hin H]]. cbn [fst snd] in H. destruct (contains AND_ f) eqn:E; [|destruct H].
+  - intros [[f s'] [Hin H]]. cbn [fst snd] in H. destruct (contains SEP_ f) eqn:E; [|destruct H].
     apply in_map_iff in H. destruct H as [el [Heq Hel]]. injection Heq as <- <-. exists f. auto.
   - intros [f [Hin [Hc Hel]]]. exists (f, s). split; [exact Hin|]. cbn [fst snd]. rewrite Hc.
     apply in_map_iff. exists c. auto.
@@ -402,7 +400,7 @@ Qed.
 Theorem aggregated_spec final :
   NoDup (map fst (aggregated final)) /\
   (forall c, In c (map fst (aggregated final)) <->
-             exists f s, In (f, s) final /\ contains AND_ f = true /\ In c (constituents f)) /\
+             exists f s, In (f, s) final /\ contains SEP_ f = true /\ In c (constituents f)) /\
   (forall c v, In (c, v) (aggregated final) -> v = qmedian (scores_of c (feature_store final))).
 Proof.
   unfold aggregated. split; [apply group_median_nodup|]. split.
@@ -413,9 +411,6 @@ Proof.
 Qed.
 
 (* ---------- well-formed names ---------- *)
-Definition nodash (c : name) : Prop := forall ch, In ch c -> ch <> DASH.
-Definition noblank (c : name) : Prop := forall ch, In ch c -> ch <> 32%N.
-
 Lemma before_dash_clean x : nodash x -> before_dash x = x.
 Proof.
   induction x as [|c t IH]; intros H; [reflexivity|]. cbn [before_dash].
@@ -455,28 +450,65 @@ Proof.
   intros H. unfold is_label. rewrite before_dash_render by exact H. rewrite name_eqb_eq. split; congruence.
 Qed.
 
-Lemma split_clean c : forall cur rest, noblank c ->
+(* --- where the joiner can occur --- *)
+Definition AND4 : name := [32; 65; 78; 68]%N.     (* " AND" *)
+
+Lemma contains_cons_false p x l : contains p (x :: l) = false -> prefixb p (x :: l) = false /\ contains p l = false.
+Proof. cbn [contains]. intros H. apply orb_false_elim in H. exact H. Qed.
+
+Lemma sepfree_tail x c : sepfree (x :: c) -> sepfree c.
+Proof. unfold sepfree. cbn [app]. intros H. apply contains_cons_false in H. apply H. Qed.
+
+Lemma sepfree_head x c : sepfree (x :: c) -> prefixb SEP_ ((x :: c) ++ AND4) = false.
+Proof. unfold sepfree. cbn [app]. intros H. apply contains_cons_false in H. apply H. Qed.
+
+Lemma prefixb_app_true p a b : prefixb p a = true -> prefixb p (a ++ b) = true.
+Proof.
+  revert a. induction p as [|x p IH]; intros a H; [reflexivity|]. destruct a as [|y a]; [discriminate|].
+  cbn [prefixb app] in *. apply andb_prop in H. destruct H as [H1 H2]. rewrite H1, (IH a H2). reflexivity.
+Qed.
+
+(* a match of ' AND ' that starts inside a non-empty v followed by the joiner already shows in  v ++ " AND" *)
+Lemma prefixb_sep_join v rest : v <> [] -> prefixb SEP_ (v ++ SEP_ ++ rest) = true -> prefixb SEP_ (v ++ AND4) = true.
+Proof.
+  intros Hne. destruct v as [|x1 [|x2 [|x3 [|x4 [|x5 v']]]]]; [congruence|..]; cbn; intros H;
+    rewrite ?andb_false_r in H; try discriminate; exact H.
+Qed.
+
+(* ... and one that starts inside v followed by '-' as well *)
+Lemma prefixb_sep_dash v a : prefixb SEP_ (v ++ DASH :: a) = true -> prefixb SEP_ (v ++ AND4) = true.
+Proof.
+  destruct v as [|x1 [|x2 [|x3 [|x4 [|x5 v']]]]]; cbn; intros H; rewrite ?andb_false_r in H; try discriminate; exact H.
+Qed.
+
+Lemma split_clean c : forall cur rest, sepfree c -> (rest = [] \/ exists r', rest = SEP_ ++ r') ->
   split_aux SEP_ O cur (c ++ rest) = split_aux SEP_ O (rev c ++ cur) rest.
 Proof.
-  induction c as [|ch c IH]; intros cur rest H; [reflexivity|].
-  cbn [app rev]. rewrite <- app_assoc. cbn [app]. rewrite <- IH by (intros x Hx; apply H; now right).
-  assert (Hch : ch <> 32%N) by (apply H; now left).
-  cbn [split_aux]. change (prefixb SEP_ (ch :: c ++ rest)) with (N.eqb 32 ch && prefixb [65; 78; 68; 32]%N (c ++ rest)).
-  destruct (N.eqb_spec 32 ch) as [E|E]; [congruence|]. reflexivity.
+  induction c as [|ch c IH]; intros cur rest H Hrest; [reflexivity|].
+  cbn [app rev]. rewrite <- app_assoc. cbn [app]. rewrite <- IH by (try exact Hrest; eapply sepfree_tail; exact H).
+  assert (Hp : prefixb SEP_ (ch :: c ++ rest) = false).
+  { destruct (prefixb SEP_ (ch :: c ++ rest)) eqn:E; [|reflexivity].
+    pose proof (sepfree_head ch c H) as Hh. rewrite <- Hh. symmetry.
+    destruct Hrest as [->|[r' ->]].
+    - rewrite app_nil_r in E. apply (prefixb_app_true SEP_ (ch :: c) AND4). exact E.
+    - apply (prefixb_sep_join (ch :: c) r'); [discriminate|exact E]. }
+  cbn [split_aux]. rewrite Hp. reflexivity.
 Qed.
 
 Lemma split_sep cur rest : split_aux SEP_ O cur (SEP_ ++ rest) = rev cur :: split_aux SEP_ O [] rest.
 Proof. reflexivity. Qed.
 
-Theorem constituents_join cs : cs <> [] -> Forall noblank cs -> split_on SEP_ (join_and cs) = cs.
+Theorem constituents_join cs : cs <> [] -> Forall sepfree cs -> split_on SEP_ (join_and cs) = cs.
 Proof.
   unfold split_on. intros Hne H. induction H as [|c r Hc Hr IH]; [congruence|]. cbn [join_and].
   destruct r as [|c2 r'].
-  - rewrite <- (app_nil_r c) at 1. rewrite split_clean by exact Hc. cbn [split_aux]. rewrite app_nil_r, rev_involutive. reflexivity.
-  - rewrite split_clean by exact Hc. rewrite split_sep. rewrite app_nil_r, rev_involutive. f_equal. apply IH. discriminate.
+  - rewrite <- (app_nil_r c) at 1. rewrite split_clean by (try exact Hc; now left).
+    cbn [split_aux]. rewrite app_nil_r, rev_involutive. reflexivity.
+  - rewrite split_clean by (try exact Hc; right; eexists; reflexivity).
+    rewrite split_sep. rewrite app_nil_r, rev_involutive. f_equal. apply IH. discriminate.
 Qed.
 
-Theorem constituents_render cs annot : cs <> [] -> Forall nodash cs -> Forall noblank cs ->
+Theorem constituents_render cs annot : cs <> [] -> Forall nodash cs -> Forall sepfree cs ->
   constituents (render cs annot) = cs.
 Proof. intros Hne Hd Hb. unfold constituents. rewrite before_dash_render by exact Hd. apply constituents_join; assumption. Qed.
 
@@ -485,9 +517,36 @@ Proof.
   intros H. induction x as [|a x IH]; [exact H|]. cbn [app contains]. rewrite IH. apply orb_true_r.
 Qed.
 
-Lemma contains_and_interaction c1 c2 r annot : contains AND_ (render (c1 :: c2 :: r) annot) = true.
+Lemma contains_sep_interaction c1 c2 r annot : contains SEP_ (render (c1 :: c2 :: r) annot) = true.
 Proof.
   unfold render. cbn [join_and]. rewrite <- !app_assoc. apply contains_app_r. reflexivity.
+Qed.
+
+(* a single (non-interaction) name never contains the joiner — whatever else it contains (AND, BRAND, ...) *)
+Lemma contains_sep_plain c : sepfree c -> contains SEP_ c = false.
+Proof.
+  induction c as [|x c IH]; intros H; [reflexivity|]. cbn [contains].
+  rewrite (IH (sepfree_tail x c H)), orb_false_r.
+  destruct (prefixb SEP_ (x :: c)) eqn:E; [|reflexivity].
+  rewrite <- (sepfree_head x c H). symmetry. apply prefixb_app_true. exact E.
+Qed.
+
+Lemma contains_sep_annotated c a : sepfree c -> contains SEP_ a = false -> contains SEP_ (c ++ DASH :: a) = false.
+Proof.
+  intros Hc Ha. induction c as [|x c IH]; cbn [app contains].
+  - rewrite Ha. reflexivity.
+  - rewrite (IH (sepfree_tail x c Hc)), orb_false_r.
+    destruct (prefixb SEP_ (x :: c ++ DASH :: a)) eqn:E; [|reflexivity].
+    rewrite <- (sepfree_head x c Hc). symmetry. apply (prefixb_sep_dash (x :: c) a). exact E.
+Qed.
+
+Definition annot_ok (annot : option name) : Prop := match annot with None => True | Some a => contains SEP_ a = false end.
+
+Lemma contains_sep_single c annot : sepfree c -> annot_ok annot -> contains SEP_ (render [c] annot) = false.
+Proof.
+  intros Hc Ha. unfold render. cbn [join_and]. destruct annot as [a|].
+  - apply contains_sep_annotated; assumption.
+  - rewrite app_nil_r. apply contains_sep_plain. exact Hc.
 Qed.
 
 (* a table whose names are renderings of constituent lists *)
@@ -495,19 +554,41 @@ Definition wf_row := (list name * option name * Q)%type.
 Definition render_row (r : wf_row) : name * Q := let '(cs, a, s) := r in (render cs a, s).
 
 Theorem feature_store_wellformed (rows : list wf_row) :
-  (forall cs a s, In (cs, a, s) rows -> cs <> [] /\ Forall nodash cs /\ Forall noblank cs) ->
-  (forall c a s, In ([c], a, s) rows -> contains AND_ (render [c] a) = false) ->
+  (forall cs a s, In (cs, a, s) rows -> cs <> [] /\ Forall nodash cs /\ Forall sepfree cs /\ annot_ok a) ->
   feature_store (map render_row rows) =
   flat_map (fun r => let '(cs, a, s) := r in if (2 <=? length cs)%nat then map (fun c => (c, s)) cs else []) rows.
 Proof.
-  intros Hwf Hone. induction rows as [|[[cs a] s] rows IH]; [reflexivity|].
+  intros Hwf. induction rows as [|[[cs a] s] rows IH]; [reflexivity|].
   cbn [map flat_map render_row]. unfold feature_store in *. cbn [flat_map fst snd]. f_equal.
-  - destruct (Hwf cs a s (or_introl eq_refl)) as [Hne [Hd Hb]].
+  - destruct (Hwf cs a s (or_introl eq_refl)) as [Hne [Hd [Hb Ha]]].
     destruct cs as [|c1 [|c2 r]]; [congruence| |].
-    + rewrite (Hone c1 a s (or_introl eq_refl)). reflexivity.
-    + rewrite contains_and_interaction. rewrite constituents_render by assumption. reflexivity.
-  - apply IH; intros; [eapply Hwf|eapply Hone]; right; eassumption.
+    + rewrite contains_sep_single; [reflexivity| |exact Ha]. inversion Hb; assumption.
+    + rewrite contains_sep_interaction. rewrite constituents_render by assumption. reflexivity.
+  - apply IH; intros; eapply Hwf; right; eassumption.
 Qed.
+
+(* ---------- witnesses: what the hypotheses exclude, and the rule before the repair ---------- *)
+Definition BRAND : name := [66; 82; 65; 78; 68]%N.
+(* old rule ('AND' in fname): the plain feature BRAND is aggregated as its own constituent; new rule: it is not *)
+Example and_substring_old_rule :
+  map fst (group_median (feature_store_old [(BRAND, 1 # 2)])) = [BRAND] /\ aggregated [(BRAND, 1 # 2)] = [].
+Proof. vm_compute. split; reflexivity. Qed.
+
+(* label "my-label": the rule compares the text before the first '-', so no row is a label row *)
+Example dash_label_empty :
+  singles_cells [65]%N [109; 121; 45; 108]%N [([102]%N, [109; 121; 45; 108]%N, 1 # 2)] = [].
+Proof. vm_compute. reflexivity. Qed.
+
+(* constituent "a-b": cut at the dash *)
+Example dash_constituent_cut :
+  constituents (render [[97; 45; 98]%N; [99]%N] None) = [[97]%N].
+Proof. vm_compute. reflexivity. Qed.
+
+(* constituent "x AND" contains no ' AND ' but ends in ' AND': the leftmost match is not the joiner *)
+Example sep_suffix_missplit :
+  contains SEP_ [120; 32; 65; 78; 68]%N = false /\
+  constituents (render [[120; 32; 65; 78; 68]%N; [121]%N] None) = [[120]%N; [65; 78; 68; 32; 121]%N].
+Proof. vm_compute. split; reflexivity. Qed.
 
 (* ---------- the executable checkers ---------- *)
 Lemma nodupn_iff l : nodupn l = true <-> NoDup l.
@@ -623,7 +704,7 @@ Qed.
 
 Theorem aggregated_okb_sound tol final obs : aggregated_okb tol final obs = true ->
   NoDup (map fst obs)
-  /\ (forall c, In c (map fst obs) <-> exists f s, In (f, s) final /\ contains AND_ f = true /\ In c (constituents f))
+  /\ (forall c, In c (map fst obs) <-> exists f s, In (f, s) final /\ contains SEP_ f = true /\ In c (constituents f))
   /\ (forall c x, In (c, x) obs -> Qabs (x - qmedian (scores_of c (feature_store final))) <= tol).
 Proof.
   unfold aggregated_okb. rewrite !andb_true_iff, nodupn_iff, !subsetn_iff, forallb_forall.
